@@ -83,7 +83,16 @@ def reference_oracle(ctx, ss):
                     for u in active:
                         if B[u]: M[u] = v
                     op = f'f[b] = {v}'
-                elif k < 0.72 and len(active) < n:
+                elif k < 0.76 and step > 1:
+                    import copy as _cp, pickle as _pk
+                    how = rng.choice(['deepcopy', 'pickle'])
+                    sim = _cp.deepcopy(sim) if how == 'deepcopy' else _pk.loads(_pk.dumps(sim)); ppl = sim.people
+                    linked = {a.name: a for a in ppl._states.values()}
+                    if 'tf0' not in linked or 'tb0' not in linked:
+                        ctx.violation(f'after a {how} of the sim the arrays linked to its people with link_people() are no longer registered with the copied people (registered: {sorted(linked)[:8]}...)', key | dict(op=how)); break
+                    f, b = linked['tf0'], linked['tb0']
+                    op = f'{how} of the sim (continue on the copy)'
+                elif k < 0.80 and len(active) < n:
                     gone = [u for u in range(n) if u not in active]; us = rng.sample(gone, min(len(gone), rng.randint(1, 2)))
                     ppl.alive[ss.uids(us)] = True      # a uid-indexed write into the cells of removed agents: the active set is not touched, now or at later removals
                     op = f'alive[uids({us})] = True (removed agents)'
